@@ -162,6 +162,28 @@ func cmdC07(args []string) {
 	dead := false
 	for h := 0; h < *nh && !dead; h++ {
 		base := g.history()
+		// a tail that always exercises mutations on lazily loaded trees: flush, re-open, then
+		// deletes and top-priority inserts (these split from the root and read off-path children)
+		for sid, gs := range g.stores {
+			if gs.ro || gs.mem {
+				continue
+			}
+			nsid := 90 + h%5
+			var nm string
+			for n := range gs.names {
+				if nm == "" || n < nm {
+					nm = n
+				}
+			}
+			hn := hx([]byte(nm))
+			base = append(base, fmt.Sprintf("flush %d", sid), fmt.Sprintf("close %d", sid), fmt.Sprintf("open %d %d", nsid, gs.fid))
+			for i := 0; i < 3; i++ {
+				base = append(base, fmt.Sprintf("del %d %s %s", nsid, hn, hx(g.key())))
+				base = append(base, fmt.Sprintf("set %d %s %s %s %d", nsid, hn, hx(g.key()), hx(g.val()), 2000000000+i))
+			}
+			base = append(base, fmt.Sprintf("totals %d %s", nsid, hn), fmt.Sprintf("shape %d %s", nsid, hn), fmt.Sprintf("dump %d", nsid))
+			break
+		}
 		// dry run: file calls per operation
 		w := newWorld()
 		var pts []injPoint
@@ -206,8 +228,25 @@ func cmdC07(args []string) {
 		}
 		extra["points_total"] += len(pts)
 		if *maxPts > 0 && len(pts) > *maxPts {
-			r.Shuffle(len(pts), func(i, j int) { pts[i], pts[j] = pts[j], pts[i] })
-			pts = pts[:*maxPts]
+			// keep every fault point inside a mutation (the richest failure modes), sample the rest
+			var must, rest []injPoint
+			for _, pt := range pts {
+				switch opKind(base[pt.op]) {
+				case "set", "del", "setroot":
+					must = append(must, pt)
+				default:
+					rest = append(rest, pt)
+				}
+			}
+			r.Shuffle(len(must), func(i, j int) { must[i], must[j] = must[j], must[i] })
+			if len(must) > *maxPts {
+				must = must[:*maxPts]
+			}
+			r.Shuffle(len(rest), func(i, j int) { rest[i], rest[j] = rest[j], rest[i] })
+			if len(rest) > *maxPts {
+				rest = rest[:*maxPts]
+			}
+			pts = append(must, rest...)
 		}
 		for _, pt := range pts {
 			w := newWorld()
